@@ -167,6 +167,21 @@ def run_case(case, seed, limit):
             err = float(np.max(np.abs(An - Ac)) / scale)
             if not np.all(np.isfinite(An)) and np.all(np.isfinite(Ac)):
                 err = float("inf")
+            # the same call on a zero tensor, compared relative to the tensor itself (a kernel whose entries are all
+            # tiny - small cut cells, custom rules - must agree to rounding as well)
+            Zc = np.zeros_like(A0)
+            runc.call_kernel(b.kernel(name), Zc, dd["w"], dd["c"], dd["x"], dd["e"], dd["p"])
+            Zn = np.zeros_like(A0)
+            signal.alarm(limit)
+            try:
+                fn(Zn, dd["w"].copy(), dd["c"].copy(), dd["x"].copy(), np.asarray(dd["e"], dtype=np.intc).copy(), np.asarray(dd["p"], dtype=np.uint8).copy(), None)
+            finally:
+                signal.alarm(0)
+            zs = float(np.max(np.abs(Zc)))
+            if zs > 0 and np.all(np.isfinite(Zc)):
+                zerr = float(np.max(np.abs(Zn - Zc)) / zs) if np.all(np.isfinite(Zn)) else float("inf")
+                if zerr > err:
+                    err, An, Ac = zerr, Zn, Zc
             kr.update(status="agree" if err <= tol else "mismatch", error=err, entity=ent,
                       observed=[complex(x) if "complex" in scalar else float(x) for x in An[:8]],
                       expected=[complex(x) if "complex" in scalar else float(x) for x in Ac[:8]])
